@@ -6,7 +6,9 @@
 
 package errors
 
-//@ unit error_handler props=C12 filter=`errors\.ErrorHandler\)\.ServeHTTP$`
+//@ unit error_handler frames=on props=C12 filter=`errors\.ErrorHandler\)\.ServeHTTP$`
+//@ // writing a log line changes nothing this handler reads (explicit frame-empty assumption; the logger's own contract is unit logger_lines)
+//@ extern (github.com/tmpim/casket/caskethttp/httpserver.Logger).Println
 //@ ghost wh int
 //@ ghost bw int
 //@ ghost errBodies int
@@ -42,6 +44,7 @@ package errors
 //@   ensures [panic_writes_500] panicking() ==> (wh >= old(wh) + 1 && lastStatus == 500)
 
 //@ func (ErrorHandler).ServeHTTP
+//@   modifies ghost:bw, ghost:errBodies, ghost:lastStatus, ghost:nextRet, ghost:wh
 //@   requires r != nil && r.URL != nil && h.Next != nil && w != nil && h.Log != nil && panicked == 0
 //@   ensures [consumes_error_status] result0 < 400
 //@   ensures [error_page_once] (panicked == 0 && nextRet >= 400 && !(result1 != nil && h.Debug)) ==> (errBodies == old(errBodies) + 1 && lastStatus == nextRet && result0 == 0)
@@ -56,7 +59,7 @@ package errors
 //@ use @verif/specs/stdlib.spec:stdlib
 //@ use @verif/specs/stdlib.spec:casket_api
 
-//@ unit errors_setup props=C12,C11 filter=`errors\.setup$`
+//@ unit errors_setup frames=on props=C12,C11 filter=`errors\.setup$`
 //@ // The error handler logs through handler.Log on every error and every recovered panic; that logger only works after
 //@ // its Start hook ran (it creates the logger and its mutex), whatever the destination. So a successful setup has always
 //@ // attached the handler's own logger to the controller, exactly once.
@@ -77,7 +80,7 @@ package errors
 //@   ensures [logger_attached_on_success] result == nil ==> (attached == old(attached) + 1 && attachedLogger == parsedLogger)
 //@   ensures [nothing_attached_on_error] result != nil ==> attached == old(attached)
 
-//@ unit errors_parse props=C11,C12 nilchecks=on dispenser_variants=on filter=`errors\.errorsParse$|errors\.errorsParse\$1$`
+//@ unit errors_parse frames=on props=C11,C12 nilchecks=on dispenser_variants=on filter=`errors\.errorsParse$|errors\.errorsParse\$1$`
 //@ // the parser of the `errors` directive and its block reader: the handler under construction exists with its page table
 //@ // and its logger from the first line on (what setup and ErrorHandler.ServeHTTP rely on); safety and termination
 //@ use casketfile/contracts_verif.go:dispenser_api
@@ -99,6 +102,7 @@ package errors
 //@   ensures [cursor_monotone] c.Dispenser.cursor >= old(c.Dispenser.cursor)
 //@   loop 1 invariant c != nil && cfg != nil && wfHandler(handler) && c.Dispenser.cursor >= old(c.Dispenser.cursor)
 //@ func errorsParse
+//@   modifies Dispenser.cursor
 //@   requires c != nil
 //@   ensures [handler_with_pages_and_logger] result1 == nil ==> wfHandler(result0)
 //@   loop 1 invariant c != nil && cfg != nil && wfHandler(handler)
